@@ -545,7 +545,7 @@ pub fn read_pass(table: &[Ops], t: &Trace, w: &Written, fault: &Fault, record: b
         let desc = || format!("record {} [{}..{}) {} {:?} written via {:?}, read as {} via {:?} under {:?}", i, s, e, table[r.w_lay as usize].name, r.shape, r.writer, rops.name, reader, fault);
         match want {
             Want::Values => {
-                let id: &'static str = if check_ok == "D4" { "D4" } else if t.input.io.is_some() || t.input.rl != RlMode::Exact { "D5" } else { "D1" };
+                let id: &'static str = if check_ok == "D4" { "D4" } else { "D1" };
                 match &out {
                     Outcome::Ok(v) => {
                         if let Some(v) = v {
@@ -634,6 +634,19 @@ pub fn read_pass(table: &[Ops], t: &Trace, w: &Written, fault: &Fault, record: b
     stats.short_reads = sr;
     stats.eintrs = ei;
     stats.steps = inp.log.steps;
+    // D5 (absorption): a D1/D2 failure that disappears when the very same history and fault are replayed
+    // through a plain input (exact remaining_len, default read_byte, no IoReader chunking / EINTR) is a
+    // failure to absorb the delivery mode, not a wrong encoding. Decided here so that the class is stable
+    // under minimisation.
+    if let Some(v) = violation.as_mut() {
+        if (v.check == "D1" || v.check == "D2") && t.input != InputMode::plain() {
+            let mut plain = t.clone();
+            plain.input = InputMode::plain();
+            if read_pass(table, &plain, w, fault, false).violation.is_none() {
+                v.check = "D5";
+            }
+        }
+    }
     if let Some(v) = &violation {
         inp.log.ev(ev::CHECK_FAIL, check_no(v.check), v.rec as u64);
     }
